@@ -2,7 +2,27 @@
 C45 agent signing).  They only *drive* the real code and *record* what it did in the vocabulary of the
 TLA+ specs (spec/SftpAttr, WireCodec, AuthStrategy, AgentSign); every judgement is made by TLC on those
 records or by comparing with values TLC emitted."""
+import contextlib
+import signal
 import socket
+
+
+class Hang(BaseException):
+    """the code under test did not come back in time / produced an unbounded amount of work"""
+
+
+@contextlib.contextmanager
+def time_limit(seconds=5.0):
+    """bound one call into the code under test (main thread only); raises Hang inside it on expiry"""
+    def on_alarm(signum, frame):
+        raise Hang("no result after %.0f s" % seconds)
+    old = signal.signal(signal.SIGALRM, on_alarm)
+    signal.setitimer(signal.ITIMER_REAL, seconds)
+    try:
+        yield
+    finally:
+        signal.setitimer(signal.ITIMER_REAL, 0)
+        signal.signal(signal.SIGALRM, old)
 
 
 # ============================================================================ C44  AuthStrategy
@@ -92,7 +112,8 @@ def run_auth_program(prog, style="generator"):
     strategy = Strategy(ssh_config=SSHConfig())
     status, res, err = "returned", None, None
     try:
-        res = strategy.authenticate(transport)
+        with time_limit():
+            res = strategy.authenticate(transport)
     except AuthFailure as e:
         status, res = "raised", getattr(e, "result", None)
     except BaseException as e:  # anything else leaves authenticate(): neither a result nor AuthFailure
@@ -256,12 +277,13 @@ def run_agent_sign(fx, kind, alg, rtype, data, sig, body=None, chunks=None, kwar
     key.agent = agent
     outcome, err = {"kind": "raised", "sig": "none"}, None
     try:
-        if alg == NONE_ALG:
-            ret = key.sign_ssh_data(data) if kwarg else key.sign_ssh_data(data, None)
-        else:
-            ret = key.sign_ssh_data(data, algorithm=alg) if kwarg else key.sign_ssh_data(data, alg)
+        with time_limit():
+            if alg == NONE_ALG:
+                ret = key.sign_ssh_data(data) if kwarg else key.sign_ssh_data(data, None)
+            else:
+                ret = key.sign_ssh_data(data, algorithm=alg) if kwarg else key.sign_ssh_data(data, alg)
         outcome = {"kind": "returned", "sig": "sig" if isinstance(ret, bytes) and ret == sig else "other"}
-    except Exception as e:
+    except (Exception, Hang) as e:
         err = repr(e)
     ids = {"listed": fx[kind]["listed"], "plain": fx[kind]["plain"], "data": bytes(data)}
     return {"alg": alg, "key": kind, "rtype": rtype, "sent": parse_sign_frames(b"".join(conn.sent), ids),
@@ -290,10 +312,16 @@ def unlimbs(ls):
     return v
 
 
+MAX_BYTES = 600      # longest byte string the generators produce is well below this
+
+
 def as_bytes_list(x):
+    """a byte string as a list of ints; an over-long one (only a decoder that lost its place produces it)
+    is cut and ends in -1, which no real byte string contains"""
     if isinstance(x, str):
         x = x.encode("utf-8")
-    return list(bytes(x))
+    x = bytes(x)
+    return list(x) if len(x) <= MAX_BYTES else list(x[:MAX_BYTES]) + [-1]
 
 
 def recording_message_class():
@@ -313,6 +341,8 @@ def recording_message_class():
             finally:
                 self._depth -= 1
             if self._depth == 0:
+                if len(self.toks) >= MAX_TOKENS:      # a decoder that lost its place loops on a garbage count
+                    raise Hang("more than %d tokens" % MAX_TOKENS)
                 self.toks.append(tok_of_arg(*a) if tok_of_arg else tok_of_result(r))
             return r
 
@@ -384,6 +414,8 @@ def recording_message_class():
     return RecMessage
 
 
+MAX_TOKENS = 4096
+
 ATTR_FIELDS = (("size", "st_size", 4), ("uid", "st_uid", 2), ("gid", "st_gid", 2), ("mode", "st_mode", 2),
                ("atime", "st_atime", 2), ("mtime", "st_mtime", 2))
 
@@ -406,13 +438,153 @@ def run_attr_roundtrip(values, ext):
             abstract[name] = [limbs(int(v), width)]
     a.attr = dict(ext)
     abstract["ext"] = [[as_bytes_list(k), as_bytes_list(v)] for k, v in ext]
+    aborted, err = "", None
     w = Rec()
-    a._pack(w)
+    try:
+        with time_limit():
+            a._pack(w)
+    except (Exception, Hang) as e:
+        aborted, err = "pack", repr(e)
     raw = w.asbytes()
     r = Rec(raw)
-    d = SFTPAttributes._from_msg(r)
+    d = SFTPAttributes()
+    if not aborted:
+        try:
+            with time_limit():
+                d._unpack(r)
+        except (Exception, Hang) as e:
+            aborted, err = "unpack", repr(e)
     dec = {name: ([] if getattr(d, attr) is None else [limbs(getattr(d, attr), width)]) for name, attr, width in ATTR_FIELDS}
-    dec["ext"] = [[as_bytes_list(k), as_bytes_list(v)] for k, v in d.attr.items()]
-    return {"attrs": abstract, "fractional": fractional, "flags": limbs(a._flags, 2), "wtoks": w.toks,
-            "rflags": limbs(d._flags, 2), "rtoks": r.toks, "dec": dec, "unread": len(r.get_remainder()),
+    dec["ext"] = [[as_bytes_list(k), as_bytes_list(v)] for k, v in list(d.attr.items())[:64]]
+    return {"attrs": abstract, "fractional": fractional, "flags": limbs(a._flags, 2), "wtoks": w.toks[:64],
+            "rflags": limbs(d._flags, 2), "rtoks": r.toks[:64], "dec": dec, "unread": len(r.get_remainder()),
+            "aborted": aborted, "error": err,
             "input": {"values": {k: v for k, v in values.items() if v is not None}, "ext": [[repr(k), repr(v)] for k, v in ext]}}
+
+
+# ============================================================================ C39  WireCodec
+
+def mag(n):
+    """magnitude of an int as a big-endian byte list without leading zeros (zero = [])"""
+    n = abs(n)
+    return list(n.to_bytes((n.bit_length() + 7) // 8, "big"))
+
+
+def unmag(v):
+    return int.from_bytes(bytes(v), "big")
+
+
+def wfield(t, neg=False, v=(), names=()):
+    return {"t": t, "neg": bool(neg), "v": list(v), "names": [list(x) for x in names]}
+
+
+OTHER = wfield("other")
+
+
+def field_of(t, value):
+    """abstract a Python value of wire type t into the record shape of WireCodec.tla"""
+    if t == "byte":
+        return wfield(t, v=[value[0]])
+    if t == "boolean":
+        return wfield(t, v=[1 if value else 0])
+    if t in ("uint32", "uint64", "adaptive"):
+        return wfield(t, v=mag(value))
+    if t == "mpint":
+        return wfield(t, neg=value < 0, v=mag(value))
+    if t == "string":
+        return wfield(t, v=list(value))
+    if t == "text":
+        return wfield(t, v=[ord(ch) for ch in value])
+    if t == "list":
+        return wfield(t, names=[[ord(ch) for ch in name] for name in value])
+    raise ValueError(t)
+
+
+def value_of(f):
+    """render a field record (e.g. one emitted by TLC) as the Python value to write"""
+    t = f["t"]
+    if t == "byte":
+        return bytes(f["v"])
+    if t == "boolean":
+        return bool(f["v"][0])
+    if t in ("uint32", "uint64", "adaptive"):
+        return unmag(f["v"])
+    if t == "mpint":
+        return -unmag(f["v"]) if f["neg"] else unmag(f["v"])
+    if t == "string":
+        return bytes(f["v"])
+    if t == "text":
+        return "".join(chr(c) for c in f["v"])
+    if t == "list":
+        return ["".join(chr(c) for c in name) for name in f["names"]]
+    raise ValueError(t)
+
+
+def observed(t, value):
+    """what a get_* returned, as a field record; "other" if it is not even of the right Python type"""
+    try:
+        if t == "byte":
+            ok = isinstance(value, bytes) and len(value) == 1
+        elif t == "boolean":
+            ok = isinstance(value, bool)
+        elif t in ("uint32", "uint64", "adaptive"):
+            ok = isinstance(value, int) and not isinstance(value, bool) and value >= 0 and value.bit_length() <= 8 * MAX_BYTES
+        elif t == "mpint":
+            ok = isinstance(value, int) and not isinstance(value, bool) and value.bit_length() <= 8 * MAX_BYTES
+        elif t == "string":
+            ok = isinstance(value, bytes) and len(value) <= 4 * MAX_BYTES
+        elif t == "text":
+            ok = isinstance(value, str) and len(value) <= 4 * MAX_BYTES
+        else:
+            ok = isinstance(value, list) and all(isinstance(x, str) for x in value) and len(value) <= MAX_BYTES
+        return field_of(t, value) if ok else dict(OTHER)
+    except Exception:
+        return dict(OTHER)
+
+
+WRITERS = {"byte": "add_byte", "boolean": "add_boolean", "uint32": "add_int", "uint64": "add_int64",
+           "adaptive": "add_adaptive_int", "mpint": "add_mpint", "string": "add_string", "text": "add_string", "list": "add_list"}
+READERS = {"byte": "get_byte", "boolean": "get_boolean", "uint32": "get_int", "uint64": "get_int64",
+           "adaptive": "get_adaptive_int", "mpint": "get_mpint", "string": "get_string", "text": "get_text", "list": "get_list"}
+FULL_LOG = 256
+
+
+def run_wire_message(fields, reuse=True, binary=False):
+    """fields: field records.  Writes them into a real Message, reads them back (from the rewound message if
+    `reuse`, else from Message(bytes)); returns the record of WireCodec_Trace.tla"""
+    from paramiko.message import Message
+    m = Message()
+    ends, aborted, err = [], "", None
+    for f in fields:
+        try:
+            with time_limit():
+                getattr(m, WRITERS[f["t"]])(value_of(f))
+        except (Exception, Hang) as e:
+            aborted, err = "write", "%s(%s): %r" % (WRITERS[f["t"]], f["t"], e)
+            break
+        ends.append(len(m.asbytes()))
+    raw = m.asbytes()
+    written = fields[:len(ends)]
+    reads = []
+    if not aborted:
+        if reuse:
+            m.rewind()
+        else:
+            m = Message(raw)
+        for f in written:
+            name = READERS[f["t"]]
+            if f["t"] == "string" and binary:
+                name = "get_binary"
+            try:
+                with time_limit():
+                    val = getattr(m, name)()
+                    sofar, rest = m.get_so_far(), m.get_remainder()
+            except (Exception, Hang) as e:
+                aborted, err = "read", "%s: %r" % (name, e)
+                break
+            full = len(raw) <= FULL_LOG and len(sofar) + len(rest) <= 2 * FULL_LOG
+            reads.append({"val": observed(f["t"], val), "sofar_len": len(sofar), "full": full,
+                          "sofar": list(sofar) if full else [], "rest": list(rest) if full else [],
+                          "split_ok": sofar + rest == raw})
+    return {"fields": written, "ends": ends, "wire": list(raw), "reads": reads, "aborted": aborted, "error": err,
+            "asked": len(fields), "reuse": reuse}
